@@ -2,3 +2,5 @@
 pub assume_specification<T: ?Sized, A: std::alloc::Allocator + Clone>[ <Rc<T, A> as Clone>::clone ](a: &Rc<T, A>) -> (r: Rc<T, A>)
     ensures r == *a;
 
+pub assume_specification<T: ?Sized, A: std::alloc::Allocator>[ <Rc<T, A> as std::ops::Deref>::deref ](a: &Rc<T, A>) -> (r: &T)
+    ensures r == &**a;
